@@ -19,7 +19,8 @@ TECHNIQUE = "contract-based deductive verification of the primitive-extraction c
 RULE = _rtc.RTC_RULE
 M = "vf.contracts.z3prim"
 FUNCTIONS = ["BackendZ3._abstract_to_primitive (Concat branch, dispatch)", "BackendZ3._abstract_bv_val", "BackendZ3._abstract_fp_encoded_val",
-             "str_to_int_unlimited", "int_to_str_unlimited", "ModelCache._leaf_op", "ModelCache._leaf_op_existonly", "ModelCacheMixin.combine"]
+             "str_to_int_unlimited", "int_to_str_unlimited", "ModelCache._leaf_op", "ModelCache._leaf_op_existonly", "ModelCacheMixin.combine",
+             "ModelCacheMixin.eval / batch_eval / min / max (values feasible under the constraints and the extras)", "BackendZ3._batch_eval", "BackendZ3._extrema"]
 TRUSTED = _rtc.RTC_TRUSTED + ["ASSUMED contracts of the Z3 C API (vf/contracts/z3prim.py:Z3Stub): Z3_get_numeral_uint64 / _string, Z3_get_app_*, Z3_get_bv_sort_size, "
                               "Z3_fpa_get_ebits/sbits, Z3_fpa_get_numeral_sign / _significand_uint64 (trailing bits) / _exponent_string(biased) / "
                               "_significand_string (decimal fraction)", "int(str(n)) == n for the decimal strings Z3 prints"]
@@ -38,4 +39,10 @@ def tasks(tier, seed=0):
            task("vf.contracts.mergesplit", "ob_mc_combine", "mixin.ModelCacheMixin.combine/cached-models-valid", ["C15", "C11", "C26"], tier=tier)]
     for s in ("FLOAT", "DOUBLE", "TINY"):
         out.append(task(M, "ob_fp_encoded", f"z3prim.fp-encoded/{s}/bit-pattern", ["C26"], replay=R, sort_name=s, tier=tier))
+    # where the returned values come from: the caching layer answers from cached models and completes with a backend query (the values must be
+    # feasible under the constraints AND the caller's extra constraints), the backend's enumeration and binary search (shared with C11 / C17)
+    for m in ("eval", "batch_eval", "min", "max"):
+        out.append(task("vf.contracts.mixins", "ob_modelcache", f"mixin.ModelCacheMixin.{m}/spec+inv", ["C11", "C26"], method=m, tier=tier))
+    out.append(task("vf.contracts.z3solve", "ob_batch_eval", "z3solve._batch_eval/state-restored+results", ["C17", "C14", "C11", "C26"], tier=tier))
+    out.append(task("vf.contracts.z3solve", "ob_extrema", "z3solve._extrema/true-optimum", ["C11", "C17", "C14", "C26"], tier=tier))
     return out + _rtc.rtc_tasks("C26", tier, seed)
